@@ -298,6 +298,9 @@ func codecMain(args []string) {
 	switch *mode {
 	case "decode":
 		decodeMode(rng, stt, w, *span, *random)
+		rule := stt.Rule
+		codecOtherModes("partial", rng, stt, w, *n, *seed, "") // the relationship / absent-field half of C06
+		stt.Rule = rule + "; distinct resource payloads"
 	default:
 		codecOtherModes(*mode, rng, stt, w, *n, *seed, fs.Lookup("gen").Value.String())
 	}
@@ -391,3 +394,5 @@ func codecReplay(path string) {
 		codecReplayOther(head.Mode, rf.Case)
 	}
 }
+
+func base64Decode(s string) ([]byte, error) { return base64.StdEncoding.DecodeString(s) }
